@@ -6,7 +6,9 @@
 // and the real banman store on a temp bbolt.  Output: line protocol (tr).
 //
 //	case <n> blk cap <cache bytes>
-//	getblock <target> <known> <enc> <cont> <verdict> [ peer:kind:rid:hdr:smw:size ... ]
+//	getblock <target> <known> <enc> <cont> <verdict> [ peer:kind:rid:hdr:smw:size:sib ... ]
+//	   (sib: id of the stored header that has the same PrevBlock and MerkleRoot as the response's header, 0 if none;
+//	    cache entries carry a 4th field: 1 iff the cached block's header hash is the hash it is cached under)
 //	   => <ret:rid:hmw | err:kind> q<n> prog [n|f ...] ban [peers] cache [key:rid:size ...]
 //
 // target/hdr: id of a header hash (chain height for stored headers), rid: id of
@@ -552,16 +554,48 @@ func (w *world) mkResp(t *tr.W, r *rand.Rand, peer int, target int) resp {
 	}
 	how := mutations[r.Intn(len(mutations))]
 	b := mutate(r, w.blocks[src-1], how)
+	if r.Intn(7) == 0 && how != "badroot" && how != "recommit" {
+		// a sibling header: same parent and merkle root as the source header, another
+		// timestamp / nonce / version, proof of work valid for its own bits -> another HASH
+		switch r.Intn(3) {
+		case 0:
+			b.Header.Timestamp = b.Header.Timestamp.Add(time.Duration(1+r.Intn(50)) * time.Second)
+		case 1:
+			b.Header.Version++
+		default:
+			b.Header.Nonce += 1 + uint32(r.Intn(1000))
+		}
+		solve(&b.Header)
+		if b.Header.BlockHash() == w.hdrs[src-1].BlockHash() {
+			b.Header.Nonce++
+			solve(&b.Header)
+		}
+		how += "+remine"
+		t.Hit("blk.mut.remine")
+	}
 	s, m, wt := w.preds(b)
 	hid := w.hdrID(b.Header.BlockHash())
+	// which stored header shares parent and merkle root with this one (0: none)
+	sib := 0
+	for i := range w.hdrs {
+		if w.hdrs[i].PrevBlock == b.Header.PrevBlock && w.hdrs[i].MerkleRoot == b.Header.MerkleRoot {
+			sib = i + 1
+		}
+	}
+	if sib != 0 && sib != hid {
+		t.Hit("blk.resp.sibling")
+		if sib == target {
+			t.Hit("blk.resp.sibling-of-target." + b01(s) + b01(m) + b01(wt))
+		}
+	}
 	t.Hit("blk.mut." + how)
 	cls := "other"
 	if hid == target {
 		cls = "target." + b01(s) + b01(m) + b01(wt)
 	}
 	t.Hit("blk.resp." + cls)
-	return resp{peer: peer, msg: b, tok: fmt.Sprintf("%d:b:%d:%d:%s%s%s:%d", peer, w.blockID(b), hid,
-		b01(s), b01(m), b01(wt), b.SerializeSize())}
+	return resp{peer: peer, msg: b, tok: fmt.Sprintf("%d:b:%d:%d:%s%s%s:%d:%d", peer, w.blockID(b), hid,
+		b01(s), b01(m), b01(wt), b.SerializeSize(), sib)}
 }
 
 // recBan forwards to the real banman store and records which networks were
@@ -612,7 +646,9 @@ func (w *world) dump() (string, string) {
 			enc = 1
 		}
 		sz, _ := v.Size()
-		ents = append(ents, fmt.Sprintf("%d:%d:%d", 2*w.hdrID(k.Hash)+enc, w.blockID(v.Block.MsgBlock()), sz))
+		// 4th field: the cached block's own header hash is the hash it is cached under
+		ents = append(ents, fmt.Sprintf("%d:%d:%d:%s", 2*w.hdrID(k.Hash)+enc, w.blockID(v.Block.MsgBlock()), sz,
+			b01(v.Block.MsgBlock().Header.BlockHash() == k.Hash)))
 		return true
 	})
 	return bans, "[" + strings.Join(ents, " ") + "]"
